@@ -2,6 +2,7 @@ package main
 
 import (
 	"fmt"
+	"strings"
 	"go/token"
 	"go/types"
 
@@ -105,11 +106,17 @@ func (c *Check) cutoffIsStrict() {
 		return false
 	}
 	isCutoffParam := func(v ssa.Value) bool {
-		pr, ok := v.(*ssa.Parameter)
-		if !ok {
+		switch v.(type) {
+		case *ssa.Parameter, *ssa.FreeVar:
+		case *ssa.UnOp:
+			// a captured cutoff read through its cell
+			if _, isFV := v.(*ssa.UnOp).X.(*ssa.FreeVar); !isFV {
+				return false
+			}
+		default:
 			return false
 		}
-		bt, ok := pr.Type().Underlying().(*types.Basic)
+		bt, ok := v.Type().Underlying().(*types.Basic)
 		return ok && bt.Info()&types.IsInteger != 0
 	}
 	// the comparisons of f between a node's cum and a cutoff parameter
@@ -224,6 +231,43 @@ func (c *Check) cutoffIsStrict() {
 			c.ok("C05-R8", key, p.relFile(firstPos), fnName(f)+" keeps a node whose |cum| equals the cutoff", "with Cum compared equal to the cutoff parameter no path through an iteration avoids the statement that keeps the node")
 		}
 	})
+	// selection written as a library filter: slices.DeleteFunc(nodes, pred) removes what pred
+	// accepts, so pred must reject a node whose |cum| equals the cutoff
+	forAllPkgFuncs(p, "internal/graph", func(f *ssa.Function) {
+		for _, b := range f.Blocks {
+			for _, ins := range b.Instrs {
+				call, ok := ins.(*ssa.Call)
+				if !ok || call.Call.StaticCallee() == nil || fnPkgPath(call.Call.StaticCallee()) != "slices" || len(call.Call.Args) != 2 {
+					continue
+				}
+				name := call.Call.StaticCallee().Name()
+				if !strings.HasPrefix(name, "DeleteFunc") {
+					continue
+				}
+				sl, ok := call.Call.Args[0].Type().Underlying().(*types.Slice)
+				if !ok || structName(sl.Elem()) != "graph.Node" {
+					continue
+				}
+				preds, unknown := p.MG().funcValues(call.Call.Args[1], map[ssa.Value]bool{})
+				for _, pred := range preds {
+					cmps := cutoffCmps(pred, nil)
+					if len(cmps) == 0 {
+						continue
+					}
+					n++
+					key := "cutoff-strict:" + fnName(f)
+					switch {
+					case unknown:
+						c.undecided("C05-R8", key, p.relFile(call.Pos()), "the predicate handed to slices.DeleteFunc could not be resolved")
+					case boolResultUnder(pred, atEquality(cmps)) == -1:
+						c.ok("C05-R8", key, p.relFile(cmps[0].Pos()), fnName(f)+" keeps a node whose |cum| equals the cutoff", "the predicate handed to slices.DeleteFunc is false when Cum compares equal to the cutoff")
+					default:
+						c.bad("C05-R8", key, p.relFile(cmps[0].Pos()), fnName(f)+" drops a node whose |cum| equals the cutoff: the entries removed are no longer exactly those below the cutoff, and with a cutoff of 0 (top-N selection) every entry whose cum cancels to zero is lost although its flat is shown in the untrimmed report")
+					}
+				}
+			}
+		}
+	})
 	if n == 0 {
 		c.undecided("C05-R8", "cutoff-strict", "", "no function of internal/graph selects nodes by comparing Node.Cum with a cutoff parameter")
 	}
@@ -291,8 +335,8 @@ func (c *Check) detachIsUnconditional() {
 			}
 		}
 	}
-	if n < 2 {
-		c.undecided("C05-R9", "detach", p.relFile(tt.Pos()), fmt.Sprintf("expected the two loops of TrimTree that detach the children of a removed node (root / inner node), found %d", n))
+	if n == 0 {
+		c.undecided("C05-R9", "detach", p.relFile(tt.Pos()), "no loop of TrimTree over a removed node's out-edges deletes the node from the children's In maps")
 	}
 }
 
